@@ -10,11 +10,40 @@ import (
 
 func c22s(i int) string { return string(rune('0' + i)) }
 
+// c22ID: entity ids are Raft log indexes. From the empty state ids 1..3 can exist; after the
+// populated prefix (param populated=1) ids 1..6 exist, 9 does not.
+func c22ID(name string) int64 {
+	if zz.ParamInt("populated", 0) == 1 {
+		return zz.OneOfInt64(name, 0, 1, 2, 3, 4, 5, 6, 9)
+	}
+	return zz.OneOfInt64(name, 0, 1, 2, 3)
+}
+
+func c22TokenID(name string) int64 {
+	if zz.ParamInt("populated", 0) == 1 {
+		return zz.OneOfInt64(name, 0, 1, 9)
+	}
+	return zz.OneOfInt64(name, 0, 1, 2)
+}
+
+// c22Populate applies a fixed, valid history: token t1 (id 1), organization x (2), team x
+// under it (3), a role of that team (4), a measurement permission of that role (5) and the
+// membership of token 1 in team 3 (6). The symbolic commands then start at index 7.
+func c22Populate(f *ClusterFSM) {
+	ok := func(r interface{}) { zz.Assert(r == nil, "the fixed populating history was rejected") }
+	ok(c2xApply(f, 1, CommandCreateToken, CreateTokenPayload{Token: TokenEntry{Name: "t1", Permissions: "read", TokenHash: "h1", TokenPrefix: "p1", CreatedAtUnixNano: 7, Enabled: true}}))
+	ok(c2xApply(f, 2, CommandCreateOrganization, CreateOrganizationPayload{Organization: OrganizationEntry{Name: "x", CreatedAtUnixNano: 7, UpdatedAtUnixNano: 7, Enabled: true}}))
+	ok(c2xApply(f, 3, CommandCreateTeam, CreateTeamPayload{Team: TeamEntry{OrganizationID: 2, Name: "x", CreatedAtUnixNano: 7, UpdatedAtUnixNano: 7, Enabled: true}}))
+	ok(c2xApply(f, 4, CommandCreateRole, CreateRolePayload{Role: RoleEntry{TeamID: 3, DatabasePattern: "*", Permissions: "read", CreatedAtUnixNano: 7}}))
+	ok(c2xApply(f, 5, CommandCreateMeasurementPermission, CreateMeasurementPermissionPayload{MeasurementPermission: MeasurementPermissionEntry{RoleID: 4, MeasurementPattern: "*", Permissions: "read", CreatedAtUnixNano: 7}}))
+	ok(c2xApply(f, 6, CommandAddTokenToTeam, AddTokenToTeamPayload{Membership: TokenMembershipEntry{TokenID: 1, TeamID: 3, CreatedAtUnixNano: 7}}))
+}
+
 // ---------------- token family ----------------
 
 func c22TokenCommand(i int, idx uint64) (CommandType, interface{}) {
 	s := c22s(i)
-	id := zz.OneOfInt64("tok_id_"+s, 0, 1, 2, 3)
+	id := c22ID("tok_id_" + s)
 	switch zz.Choice("tok_kind_"+s, 5) {
 	case 0:
 		return CommandCreateToken, CreateTokenPayload{Token: TokenEntry{
@@ -100,8 +129,8 @@ func c22FileCommand(i int, idx uint64) (CommandType, interface{}) {
 
 func c22RBACCommand(i int, idx uint64) (CommandType, interface{}) {
 	s := c22s(i)
-	id := zz.OneOfInt64("rbac_id_"+s, 0, 1, 2, 3)
-	parent := zz.OneOfInt64("rbac_parent_"+s, 0, 1, 2, 3)
+	id := c22ID("rbac_id_" + s)
+	parent := c22ID("rbac_parent_" + s)
 	created := zz.OneOfInt64("rbac_created_"+s, 0, 7)
 	name := zz.OneOf("rbac_name_"+s, "", "x", "y")
 	perm := zz.OneOf("rbac_perm_"+s, "read", "read,bogus")
@@ -148,9 +177,9 @@ func c22RBACCommand(i int, idx uint64) (CommandType, interface{}) {
 	case 10:
 		return CommandDeleteMeasurementPermission, DeleteMeasurementPermissionPayload{ID: id}
 	case 11:
-		return CommandAddTokenToTeam, AddTokenToTeamPayload{Membership: TokenMembershipEntry{TokenID: zz.OneOfInt64("rbac_token_"+s, 0, 1, 2), TeamID: parent, CreatedAtUnixNano: created}}
+		return CommandAddTokenToTeam, AddTokenToTeamPayload{Membership: TokenMembershipEntry{TokenID: c22TokenID("rbac_token_" + s), TeamID: parent, CreatedAtUnixNano: created}}
 	default:
-		return CommandRemoveTokenFromTeam, RemoveTokenFromTeamPayload{TokenID: zz.OneOfInt64("rbac_token_"+s, 0, 1, 2), TeamID: parent}
+		return CommandRemoveTokenFromTeam, RemoveTokenFromTeamPayload{TokenID: c22TokenID("rbac_token_" + s), TeamID: parent}
 	}
 }
 
@@ -296,6 +325,8 @@ func c22ParentsExist(f *ClusterFSM, when string) {
 	for _, e := range f.tokenMemberships {
 		_, ok := f.teams[e.TeamID]
 		zz.Assert(ok, "membership refers to a team that does not exist ("+when+")")
+		_, ok = f.tokens[e.TokenID]
+		zz.Assert(ok, "membership refers to a token that does not exist ("+when+")")
 	}
 }
 
@@ -380,6 +411,13 @@ func VerifC22() {
 	k := zz.ParamInt("k", 2)
 	family := zz.Param("family", "tokens")
 	f := c2xNew()
+	base := uint64(0)
+	if zz.ParamInt("populated", 0) == 1 {
+		c22Populate(f)
+		base = 6
+		c22IndexesAgree(f, "after the populating history")
+		c22ParentsExist(f, "after the populating history")
+	}
 	var g *ClusterFSM
 	snapAt := zz.Choice("snapshot_after", k+1)
 	for i := 0; i <= k; i++ {
@@ -391,7 +429,7 @@ func VerifC22() {
 		if i == k {
 			break
 		}
-		idx := uint64(i + 1)
+		idx := base + uint64(i+1)
 		var t CommandType
 		var p interface{}
 		switch family {
@@ -402,6 +440,13 @@ func VerifC22() {
 			t, p = c22TokenCommand(i, idx)
 		case "files":
 			t, p = c22FileCommand(i, idx)
+		case "auth":
+			// tokens and RBAC together (memberships need both)
+			if zz.Bool("auth_is_token_cmd_" + c22s(i)) {
+				t, p = c22TokenCommand(i, idx)
+			} else {
+				t, p = c22RBACCommand(i, idx)
+			}
 		default:
 			t, p = c22RBACCommand(i, idx)
 		}
